@@ -144,7 +144,7 @@ Example C16_cv_instance :
   let predict := fun (m : nat) (rows : list nat) => Some (map (fun r => m + r) rows) in
   let score := fun (a b : list nat) => list_sum a + list_sum b in
   cross_val_predict 0 fit predict 2 [2; 0; 3; 1; 4] [0; 1; 2; 3; 4] [10; 10; 10; 10; 10]
-    = Some [24; 28; 26; 30; 31] /\
+    = Some [25; 36; 27; 28; 39] /\
   cross_validate fit predict score 2 [2; 0; 3; 1; 4] [0; 1; 2; 3; 4] [10; 10; 10; 10; 10]
-    = Some ([111; 98], [74; 111]).
+    = Some ([110; 95], [75; 140]).
 Proof. split; vm_compute; reflexivity. Qed.
